@@ -210,3 +210,32 @@ def gen_snippet(rng: random.Random, uniq_base: int) -> str:
 
 
 PV_VALUES = {"PV1": [0.0, 1.0, 2.5, 4.0, 6.0, 10.0], "PV2": [5.0, 20.0, 27.0, 35.0], "LVL": [10.0, 50.0, 90.0]}
+
+
+def gen_scenario(rng: random.Random) -> list[list[str]]:
+    """Hand-shaped method skeletons with drawn parameters for interactions the free generator reaches rarely:
+    a scope (block, macro invocation, alarm body) that is abandoned or re-entered while something in it is under way."""
+    u = [100]
+
+    def m():
+        u[0] += 1
+        return f"Mark: s{u[0]}"
+    w1 = rng.choice([0.2, 0.3, 0.5, 0.8])
+    w2 = rng.choice([0.2, 0.4, 1.0])
+    k = rng.randrange(5)
+    if k == 0:      # macro invocation abandoned by a Watch ending its block, macro called again
+        body = [m(), f"Wait: {w1}s", m(), m()] if rng.random() < 0.7 else [m(), m(), f"Wait: {w1}s", m()]
+        lines = ["Base: s", "Macro: MA"] + ["    " + b for b in body] + [
+            "Block: sb1", f"    Watch: Block Time > {w2} s", "        End block", "    Call macro: MA", m(), "Call macro: MA", m()]
+    elif k == 1:    # nested blocks, the outer one ended from a Watch while the inner one is active
+        lines = ["Base: s", "Block: sb1", f"    Watch: Block Time > {w2} s", "        " + m(), "        End blocks",
+                 "    Block: sb2", "        " + m(), f"        Wait: {w1}s", "        " + m(), "        End block", "    " + m(),
+                 "    End block", m()]
+    elif k == 2:    # alarm whose body is still busy when the condition holds again
+        lines = ["Base: s", f"Alarm: Run Time > {w2} s", "    " + m(), f"    Wait: {w1}s", "    " + m(), m(), f"Wait: {w1 + 1.0}s", m()]
+    elif k == 3:    # macro redefinition between two calls
+        lines = ["Macro: MB", "    " + m(), "    " + m(), "Call macro: MB", "Macro: MB", "    " + m(), "Call macro: MB", m(),
+                 "Call macro: MB"]
+    else:           # thresholds inside a block after a wait, block ended by its own End block with threshold
+        lines = ["Base: s", "Block: sb3", "    " + m(), f"    {w1:g} " + m(), f"    Wait: {w2}s", f"    {w1 + w2 + 0.3:g} End block", m()]
+    return [[f"L{i:03d}", ln] for i, ln in enumerate(lines)]
